@@ -24,7 +24,8 @@ def parse_dump(text):
     """Sequential ITEM-record parser.  Returns a list of dicts:
     timestep (int), natoms (int), triclinic (bool), flags (list of str), bound_tokens (3 lists of str),
     columns (list of str), rows (natoms lists of str tokens)."""
-    lines = text.split("\n")
+    # line ends: LF or CRLF (files copied from Windows); a missing newline after the last line is allowed
+    lines = text.replace("\r\n", "\n").split("\n")
     if lines and lines[-1] == "":
         lines.pop()
     frames = []
@@ -34,7 +35,7 @@ def parse_dump(text):
         ln = lines[k]
         if not ln.startswith("ITEM: "):
             raise ValueError(f"line {k}: expected an ITEM record, got {ln!r}")
-        head = ln[len("ITEM: "):]
+        head = ln[len("ITEM: "):].rstrip()
         if head == "TIMESTEP":
             cur = {"timestep": int(lines[k + 1])}
             frames.append(cur)
@@ -136,15 +137,41 @@ def columns_expected(fr, cols1):
 STYLE_COLS = {"x": ["x", "y", "z"], "xs": ["xs", "ys", "zs"], "xu": ["xu", "yu", "zu"]}
 
 
-def atom_lines(fmt, ids, types, coords, extras, pad_z=False):
-    """One text line per atom in the given row order: id type coords [0-z-column] extras."""
+LAYOUT_PLAIN = {"eol": "\n", "sep": "1", "trail": False, "final_newline": True, "bfmt": None, "kind": "plain"}
+LAYOUT_LAMMPS = {"eol": "\n", "sep": "1", "trail": True, "final_newline": True, "bfmt": "%.16e", "kind": "lammps"}
+_SEPS = [" ", "\t", "   ", " \t"]
+
+
+def join_tokens(tokens, lay, pad_from=0):
+    """One line of white-space separated tokens in the given layout (without the line end).
+    sep: '1' one blank | '2' two blanks | 'tab' | 'mixed' blanks and tabs | 'pad' right-aligned columns."""
+    sep = lay["sep"]
+    if sep == "1":
+        s = " ".join(tokens)
+    elif sep == "2":
+        s = "  ".join(tokens)
+    elif sep == "tab":
+        s = "\t".join(tokens)
+    elif sep == "mixed":
+        s = tokens[0] + "".join(_SEPS[k % 4] + t for k, t in enumerate(tokens[1:]))
+    else:
+        s = " ".join(t if k < pad_from else t.rjust(max(len(t), 12) + (k % 3)) for k, t in enumerate(tokens))
+    return s + (" " if lay["trail"] else "")
+
+
+def atom_lines(fmt, ids, types, coords, extras, pad_z=False, lay=None, elem=None):
+    """One text line per atom in the given row order: id type coords [0-z-column] [element] extras [element].
+    elem: None | {"values": [str]*N, "first": bool} — a non-numeric trailing column (dump custom ... element)."""
+    lay = lay or LAYOUT_PLAIN
     out = []
     for r in range(len(ids)):
         toks = [str(int(ids[r])), str(int(types[r]))] + [fmt % v for v in coords[r]]
         if pad_z:
             toks.append(fmt % 0.0)
-        toks += [fmt % v for v in extras[r]]
-        out.append(" ".join(toks) + "\n")
+        ex = [fmt % v for v in extras[r]]
+        if elem is not None:
+            ex = ([elem["values"][r]] + ex) if elem["first"] else (ex + [elem["values"][r]])
+        out.append(join_tokens(toks + ex, lay, pad_from=2) + lay["eol"])
     return "".join(out)
 
 
@@ -153,34 +180,44 @@ def encode_dump(case):
     zcol}] -> dump text.  Coordinates: xs -> f ; x/xu -> lo + (f+exc)*L (orthogonal part only; for tilted headers the
     coordinates are just numbers, the readers that accept them do not interpret them)."""
     d, style, fmt = case["d"], case["style"], case["fmt"]
+    lay = case.get("layout") or LAYOUT_PLAIN
+    eol = lay["eol"]
+    bfmt = lay["bfmt"] or fmt
     out = []
     for fr in case["frames"]:
         lo, L = np.asarray(fr["lo"], float), np.asarray(fr["L"], float)
         n = len(fr["ids"])
-        out.append("ITEM: TIMESTEP\n%d\nITEM: NUMBER OF ATOMS\n%d\n" % (fr["timestep"], n))
+        out.append(f"ITEM: TIMESTEP{eol}%d{eol}ITEM: NUMBER OF ATOMS{eol}%d{eol}" % (fr["timestep"], n))
         blo = list(lo) + ([-0.5] if d == 2 else [])
         bhi = list(lo + L) + ([0.5] if d == 2 else [])
         if fr.get("tilt") is None:
-            out.append("ITEM: BOX BOUNDS %s\n" % fr["flags"])
+            out.append("ITEM: BOX BOUNDS %s" % fr["flags"] + eol)
             for a, b in zip(blo, bhi):
-                out.append(f"{fmt % a} {fmt % b}\n")
+                out.append(join_tokens([bfmt % a, bfmt % b], lay) + eol)
         else:
             xy, xz, yz = fr["tilt"]
             if d == 2:
                 xz = yz = 0.0
-            out.append("ITEM: BOX BOUNDS xy xz yz %s\n" % fr["flags"])
+            out.append("ITEM: BOX BOUNDS xy xz yz %s" % fr["flags"] + eol)
             ext = [(min(0.0, xy, xz, xy + xz), max(0.0, xy, xz, xy + xz), xy), (min(0.0, yz), max(0.0, yz), xz),
                    (0.0, 0.0, yz)]
             for a, b, (emin, emax, t) in zip(blo, bhi, ext):
-                out.append(f"{fmt % (a + emin)} {fmt % (b + emax)} {fmt % t}\n")
+                out.append(join_tokens([bfmt % (a + emin), bfmt % (b + emax), bfmt % t], lay) + eol)
         ncoord = 3 if (d == 3 or fr["zcol"]) else 2
-        out.append("ITEM: ATOMS id type " + " ".join(STYLE_COLS[style][:ncoord] + list(fr["names"])) + "\n")
+        elem = fr.get("elem")
+        trailing = list(fr["names"])
+        if elem is not None:
+            trailing = (["element"] + trailing) if elem["first"] else (trailing + ["element"])
+        out.append("ITEM: ATOMS id type " + " ".join(STYLE_COLS[style][:ncoord] + trailing) + (" " if lay["trail"] else "") + eol)
         if style == "xs":
             coords = np.asarray(fr["f"], float)
         else:
             coords = lo + (np.asarray(fr["f"], float) + np.asarray(fr["exc"], float)) * L
-        out.append(atom_lines(fmt, fr["ids"], fr["types"], coords, fr["extras"], pad_z=ncoord > d))
-    return "".join(out)
+        out.append(atom_lines(fmt, fr["ids"], fr["types"], coords, fr["extras"], pad_z=ncoord > d, lay=lay, elem=elem))
+    text = "".join(out)
+    if not lay["final_newline"] and text.endswith(eol):
+        text = text[: len(text) - len(eol)]
+    return text
 
 
 # ----------------------------------------------------------------------------- data-file header
@@ -273,13 +310,15 @@ def encode_log(case):
     Returns (text, complete, tail_rows) where complete = [(columns, [[token,...], ...])] as written."""
     out = [ln + "\n" for ln in case["pre"]]
     complete = []
+    lay = case.get("layout") or {}
+    trail = " " if lay.get("trail") else ""     # older LAMMPS versions end thermo lines with a blank
     for sec in case["sections"]:
-        out.append(" ".join(sec["columns"]) + "\n")
+        out.append(" ".join(sec["columns"]) + trail + "\n")
         rows = []
         for s, v in zip(sec["steps"], sec["values"]):
             ln = log_row(s, v, sec["fmt"], sec["width"])
             rows.append(ln.split())
-            out.append(ln + "\n")
+            out.append(ln + trail + "\n")
         out.append(sec["loop"] + "\n")
         out += [ln + "\n" for ln in sec["post"]]
         complete.append((list(sec["columns"]), rows))
@@ -304,7 +343,10 @@ def encode_log(case):
         out.append(body)
     elif case["last"] is not None:
         out.append(case["last"] + "\n")
-    return "".join(out), complete, tail_rows
+    text = "".join(out)
+    if lay.get("eol") == "\r\n":
+        text = text.replace("\n", "\r\n")
+    return text, complete, tail_rows
 
 
 def tokens_to_float(rows, ncol):
